@@ -198,3 +198,91 @@ def strategy(tier):
 
 def budget(tier):
     return {"examples": 320 if tier == "quick" else 6000, "shards": 16}
+
+
+# ------------------------------------------------------------------ shipped NA10860 BAMs: exact version of the "approximately 2.0" clause
+def run_na10860(case):
+    """Profile generated from NA10860 itself, then NA10860 normalised with it: every region must read exactly
+    2 x (depth of eligible reads / depth of all aligned reads) x (neutral depth of all reads / neutral depth of eligible reads),
+    both depths computed by the independent CIGAR interpreter - the profile counts every aligned read, the sample only eligible ones."""
+    import collections
+    import pysam
+    from aldy.sam import Sample
+    from aldy.profile import Profile
+    from aldy.common import script_path
+    from lib import gen_sol, refpile
+
+    gene = gen_sol.shipped("cyp2d6", case["build"])
+    path = script_path("aldy.tests.resources/" + case["file"])
+    regions = {(gene.name, r, gi): rng for gi, gr in enumerate(gene.regions) for r, rng in gr.items()}
+    data = Profile.get_sam_profile_data(path, regions=regions, genome=case["build"])
+    d = scratch()
+    pf = os.path.join(d, "na.yml")
+    with open(pf, "w") as f:
+        f.write(yaml.dump(data, default_flow_style=None))
+    prof = Profile.load(gene, pf)
+    s = Sample(gene, prof, path)
+    cnr = prof.cn_region
+    inv = {v: k for k, v in refpile.CODES.items()}
+    d_all, d_el = collections.Counter(), collections.Counter()
+    wide = gene.get_wide_region()
+    with pysam.AlignmentFile(path) as f:
+        prefix = "chr" if ("chr" + gene.chr) in f.references else ""
+        for r in f.fetch(until_eof=True):
+            if r.is_unmapped or not r.cigartuples or r.reference_name != prefix + gene.chr:
+                continue
+            rd = {"pos": r.reference_start, "cig": [(inv[o], n) for o, n in r.cigartuples], "seq": r.query_sequence or "",
+                  "qual": [0] * len(r.query_sequence or ""), "flag": r.flag, "mq": r.mapping_quality}
+            al, de, _, _ = refpile.walk(rd) if rd["seq"] else ([], [], [], [])
+            if not rd["seq"]:
+                # reads without stored sequence still count for depth: walk reference positions only
+                p = rd["pos"]
+                cov = []
+                for o, n in rd["cig"]:
+                    if o in "M=XD":
+                        cov += list(range(p, p + n))
+                        p += n
+                    elif o == "N":
+                        p += n
+                pos = cov
+            else:
+                pos = [p for p, _, _ in al] + list(de)
+            elig_gene = refpile.eligible(rd)
+            elig_neutral = not (r.flag & refpile.SUPPL)
+            for p in pos:
+                d_all[p] += 1
+                if elig_gene:
+                    d_el[("g", p)] += 1
+                if elig_neutral:
+                    d_el[("n", p)] += 1
+    n_all = sum(d_all[p] for p in range(cnr.start, cnr.end))
+    n_smp = sum(d_el[("n", p)] for p in range(cnr.start, cnr.end))
+    viol = []
+    bad = {}
+    for gi, gr in enumerate(gene.regions):
+        for r, rng in gr.items():
+            pa = sum(d_all[p] for p in range(rng.start, rng.end))
+            pe = sum(d_el[("g", p)] for p in range(rng.start, rng.end))
+            want = (n_all / n_smp) * pe / (pa / 2) if pa else 0.0
+            got = s.coverage.region_coverage(gi, r)
+            if not close(got, want):
+                bad[f"{gi}:{r}"] = (got, want)
+    if bad:
+        viol.append(V("na10860-self-profile-differs-from-independent-pileup", diffs=dict(list(bad.items())[:5]), file=case["file"]))
+    vals = [s.coverage.region_coverage(gi, r) for gi, gr in enumerate(gene.regions) for r in gr if data[gene.name][r][gi]]
+    if vals and not all(1.8 <= v <= 2.0 + 1e-9 for v in vals):
+        viol.append(V("na10860-self-profile-not-about-2.0", lo=min(vals), hi=max(vals)))
+    return Result(viol, ["shipped-bam:" + case["file"]], True, info={"min": min(vals), "max": max(vals)})
+
+
+_gen_run_case = run_case
+
+
+def run_case(case):  # noqa
+    if case.get("kind") == "na10860":
+        return run_na10860(case)
+    return _gen_run_case(case)
+
+
+def enum_cases(tier):
+    return [{"kind": "na10860", "file": "NA10860.bam", "build": "hg19"}, {"kind": "na10860", "file": "NA10860_hg38.bam", "build": "hg38"}]
